@@ -195,7 +195,12 @@ def block_sweep(n0, tier):
 
 def check(run):
     rng = random.Random(run.seed)
-    run.model_check("mc/MC_ZiPatch.tla", "mc/MC_ZiPatch.cfg", workers=12)
+    # the patch machine on every chunk sequence of <= 4 chunks (thorough: <= 5, 4 min); conformance replays the sequences of <= 3
+    run.model_check("mc/MC_ZiPatch.tla", "mc/MC_ZiPatch_4.cfg", workers=12, coverage=False)
+    if run.tier == "thorough":
+        run.model_check("mc/MC_ZiPatch.tla", "mc/MC_ZiPatch_5.cfg", workers=12, coverage=False, timeout=3000)
+    else:
+        run.model_check("mc/MC_ZiPatch.tla", "mc/MC_ZiPatch.cfg", workers=12)        # with per-action coverage
     seqs, st = tlc_generate("mc/MC_ZiPatch.tla", "mc/Gen_ZiPatch_thorough.cfg", workers=12)
     run.notes["generator"] = {"sequences": len(seqs), **st}
     if run.tier == "quick":
